@@ -28,6 +28,7 @@ use oq3_syntax::ast as synast; // Syntactic AST
 
 use crate::with_scope;
 
+#[allow(unused_imports)]
 use crate::utils::type_name_of; // for debugging
 
 // traits
@@ -1224,9 +1225,17 @@ fn designator_to_asg(
         }
         Some(synast::Expr::Identifier(identifier)) => {
             let (sym, typ) = lookup_identifier(&identifier, context);
+            // An undeclared identifier has already been reported by the lookup.
+            let Ok(symbol_id) = sym else {
+                return None;
+            };
             if typ.is_const() {
-                let const_value = context.get_const_value(sym.unwrap());
-                let width = match u32::try_from(const_value.unwrap()) {
+                // Not every const symbol has a recorded value (e.g. a gate parameter).
+                let Some(const_value) = context.get_const_value(symbol_id) else {
+                    context.insert_error(ConstIntegerError, &identifier);
+                    return None;
+                };
+                let width = match u32::try_from(const_value) {
                     Ok(width) => width,
                     Err(_) => {
                         context.insert_error(InvalidDesignatorError, &identifier);
@@ -1240,7 +1249,11 @@ fn designator_to_asg(
                 None
             }
         }
-        Some(expr) => panic!("Unsupported designator type: {:?}", type_name_of(expr)),
+        Some(expr) => {
+            // Constant expressions other than a literal or an identifier are not supported yet.
+            context.insert_error(NotImplementedError, &expr);
+            None
+        }
         None => None,
     }
 }
